@@ -32,7 +32,7 @@ def find_worker_closures(mir_text):
     res = {}
     for f in split_functions(mir_text):
         hdr = f.split("\n", 1)[0]
-        m = re.match(r"^fn (?:checker::)?(\w+)::<impl at src/checker/(\w+)\.rs[^>]*>::spawn::\{closure#\d+\}\(", hdr)
+        m = re.match(r"^fn (?:checker::)?(\w+)::<impl at src/checker/(\w+)\.rs[^>]*>::spawn::\{closure#\d+\}(?:::\{closure#\d+\})*\(", hdr)
         if not m:
             continue
         if re.search(r"= JobBroker::<.*>::pop\(", f):
